@@ -69,6 +69,18 @@ def cases(rng, tier):
         yield ("workflow", {"kind": "reuse_chain", "nq": 3, "qregs": [3], "instrs": instrs,
                             "obs": [{"l": "IZI", "p": 0}, {"l": "IXI", "p": 0}, {"l": "IYZ", "p": 0}], "auto": k == 0, "N": None,
                             "seed": rng.randrange(1 << 30), "single": k == 1})
+    for k in range(3):
+        # the input carries explicit initialisation resets (one or two per wire, QASM style) and a Move writes onto such a wire:
+        # reset(user) [reset(user)] reset(preparation) ... are all resets of |0>, none may survive as the first operation of the wire.
+        # (Second clause only: a wire that carries a user reset has been "used before", so T19.1's hypotheses do not hold.)
+        init = [{"name": "reset", "qubits": [q]} for q in range(3) for _ in range(2 if (k == 1 and q == 1) else 1)]
+        body = [{"name": "h", "qubits": [0]}, {"name": "cx", "qubits": [0, 2]}, {"name": "move", "qubits": [0, 1]},
+                {"name": "ry", "qubits": [1], "params": [0.7]}, {"name": "cx", "qubits": [1, 2]}]
+        if k == 2:
+            init = [i for i in init if i["qubits"] != [0]] + [{"name": "reset", "qubits": [1]}]
+        yield ("workflow", {"kind": "reuse_chain", "nq": 3, "qregs": [3], "instrs": init + body,
+                            "obs": [{"l": "IZZ", "p": 0}, {"l": "IXY", "p": 0}, {"l": "IIZ", "p": 0}], "auto": k != 1, "N": None,
+                            "seed": rng.randrange(1 << 30), "single": k == 2, "always_oracle": True})
     for _ in range(N):
         kind = rng.choice(["markers", "markers", "markers", "fresh_moves", "reuse_chain"])
         nq = rng.randint(1, 4) if kind == "markers" else rng.randint(2, 4)
